@@ -78,3 +78,25 @@ package imagehash
 //@   props C19
 //@   pure
 //@   ensures [C19] int(r0) == popcount64(ph[0] ^ hash[0]) + popcount64(ph[1] ^ hash[1]) + popcount64(ph[2] ^ hash[2]) + popcount64(ph[3] ^ hash[3])
+
+//@ func NewPHash256
+//@   props C19 C04
+//@   entry
+//@   ghost fl [256]float64 = flattens
+//@   ghost med float64 = median
+//@   ensures [C19] err == nil <==> img != nil && imgW(img) == 256 && imgH(img) == 256
+//@   ensures [C19] err != nil ==> phash[0] == 0 && phash[1] == 0 && phash[2] == 0 && phash[3] == 0
+//@   ensures [C19] err == nil ==> forall k int :: 0 <= k && k < 256 ==> (((phash[k/64] >> uint(63-k%64)) & 1) == 1) == (fl[k] > med)
+//@   loop 0 invariant -1 <= rangeindex && rangeindex <= 255
+//@   loop 0 invariant forall k int :: 0 <= k && k < 256 ==> (((phash[k/64] >> uint(63-k%64)) & 1) == 1) == (k <= rangeindex && flattens[k] > median)
+
+//@ func NewPHash256Alt
+//@   props C19 C04
+//@   entry
+//@   ghost fl [256]float32 = flattens
+//@   ghost med float32 = median
+//@   ensures [C19] err == nil <==> img != nil && imgW(img) == 256 && imgH(img) == 256
+//@   ensures [C19] err != nil ==> phash[0] == 0 && phash[1] == 0 && phash[2] == 0 && phash[3] == 0
+//@   ensures [C19] err == nil ==> forall k int :: 0 <= k && k < 256 ==> (((phash[k/64] >> uint(63-k%64)) & 1) == 1) == (fl[k] > med)
+//@   loop 0 invariant -1 <= rangeindex && rangeindex <= 255
+//@   loop 0 invariant forall k int :: 0 <= k && k < 256 ==> (((phash[k/64] >> uint(63-k%64)) & 1) == 1) == (k <= rangeindex && flattens[k] > median)
